@@ -60,6 +60,9 @@ func MustFrom(fn *ssa.Function, entry Facts, eg EdgeGen, gen, kill InstrFn) map[
 				o := out(p)
 				for si, s := range p.Succs {
 					if s == b {
+						if constEdgeInfeasible(p, si) {
+							continue
+						}
 						e := o
 						if eg != nil {
 							e |= eg(p, si)
@@ -78,6 +81,38 @@ func MustFrom(fn *ssa.Function, entry Facts, eg EdgeGen, gen, kill InstrFn) map[
 		}
 	}
 	return in
+}
+
+// constEdgeInfeasible: the block ends in a test of a constant (a flag of an inlined helper bound to
+// true or false at this call: `if !volatileOnly || …` with volatileOnly = false) and this successor
+// is the branch that is never taken.
+func constEdgeInfeasible(p *ssa.BasicBlock, si int) bool {
+	iff := IfOf(p)
+	if iff == nil || len(p.Succs) != 2 {
+		return false
+	}
+	v := iff.Cond
+	neg := false
+	for {
+		u, ok := v.(*ssa.UnOp)
+		if !ok || u.Op != token.NOT {
+			break
+		}
+		v, neg = u.X, !neg
+	}
+	c, ok := v.(*ssa.Const)
+	if !ok {
+		return false
+	}
+	b, ok := ConstBool(c)
+	if !ok {
+		return false
+	}
+	taken := 0
+	if b == neg {
+		taken = 1
+	}
+	return si != taken
 }
 
 // May computes, per block, the facts that hold on entry on SOME path from the entry.
@@ -113,6 +148,9 @@ func MayFrom(fn *ssa.Function, entry Facts, eg EdgeGen, gen, kill InstrFn) map[*
 				o := out(p)
 				for si, s := range p.Succs {
 					if s == b {
+						if constEdgeInfeasible(p, si) {
+							continue
+						}
 						e := o
 						if eg != nil {
 							e |= eg(p, si)
